@@ -76,12 +76,18 @@ fn run_behaviour(route: &str, ivs: &[Iv], chars: &[u32], sets: &[Iv]) -> Value {
                     rest = &ivs[1..];
                 }
                 steps.push(proj(&p));
+                // queries interleaved with the pushes: the first and last character of the interval about to be
+                // pushed, asked right before and right after the push (nothing else in between)
+                let mut probes = vec![];
                 for &(a, b) in rest {
+                    let before = [cid_json(p.class_of_char(b)), cid_json(p.class_of_char(a))];
                     p.push(a, b);
+                    let after = [cid_json(p.class_of_char(a)), cid_json(p.class_of_char(b)), cid_json(p.class_of_char(a))];
+                    probes.push(json!({"a": a, "b": b, "before": before, "after": after}));
                     steps.push(proj(&p));
                 }
                 let (cq, sq) = queries(&p, chars, sets);
-                json!({"op":"part","route":route,"ivs":ivs_json(ivs),"res":"ok","steps":steps,"chars":cq,"sets":sq})
+                json!({"op":"part","route":route,"ivs":ivs_json(ivs),"res":"ok","steps":steps,"probes":probes,"chars":cq,"sets":sq})
             }
             "list+push" => {
                 // a mixed history: the first half through try_from_list (given in reverse order), the rest pushed
@@ -90,12 +96,16 @@ fn run_behaviour(route: &str, ivs: &[Iv], chars: &[u32], sets: &[Iv]) -> Value {
                 first.reverse();
                 let mut p = CharPartition::try_from_list(&first).map_err(|e| format!("{:?}", e)).expect("disjoint by construction");
                 let mut steps = vec![proj(&p)];
+                let mut probes = vec![];
                 for &(a, b) in &ivs[k..] {
+                    let before = [cid_json(p.class_of_char(b)), cid_json(p.class_of_char(a))];
                     p.push(a, b);
+                    let after = [cid_json(p.class_of_char(a)), cid_json(p.class_of_char(b)), cid_json(p.class_of_char(a))];
+                    probes.push(json!({"a": a, "b": b, "before": before, "after": after}));
                     steps.push(proj(&p));
                 }
                 let (cq, sq) = queries(&p, chars, sets);
-                json!({"op":"part","route":"list+push","k":k,"ivs":ivs_json(ivs),"res":"ok","steps":steps,"chars":cq,"sets":sq})
+                json!({"op":"part","route":"list+push","k":k,"ivs":ivs_json(ivs),"res":"ok","steps":steps,"probes":probes,"chars":cq,"sets":sq})
             }
             _ => {
                 let list: Vec<CharSet> = ivs.iter().map(|&(a, b)| CharSet::range(a, b)).collect();
